@@ -54,8 +54,8 @@ static void expect_refused(uint8_t *buf, uint32_t sz, const char *what, uint64_t
     NvmModule *m = nvm_deserialize(buf, sz);
     __sync_fetch_and_add(&g_counter[CNT_EVAL], 1);
     if (m) {
-        __sync_fetch_and_add(&g_counter[CNT_ACCEPTED], 1);
-        printf("FAIL accepted %s a=%llu b=%llu c=%llu\n", what, (unsigned long long)a, (unsigned long long)b, (unsigned long long)c);
+        unsigned long long nacc = __sync_fetch_and_add(&g_counter[CNT_ACCEPTED], 1);
+        if (nacc < 25) printf("FAIL accepted %s a=%llu b=%llu c=%llu\n", what, (unsigned long long)a, (unsigned long long)b, (unsigned long long)c);
         nvm_module_free(m);
     } else __sync_fetch_and_add(&g_counter[CNT_REFUSED], 1);
 }
@@ -149,9 +149,96 @@ static int cmd_c12(int argc, char **argv) {
     return 0;
 }
 
+
+/* ------------------------------------------------------------------ C10(b): structural product
+ * Modules built directly through the nvm_* API over a small structural alphabet; for every
+ * element of the product: deserialize(serialize(m)) == m field-wise and serialize is idempotent. */
+static const char *c10_strsets[][4] = {
+    {NULL}, {"", NULL}, {"a", NULL}, {"a", "b", NULL}, {"a", "", NULL}, {"", "a", "bb"},
+};
+static const NvmFunctionEntry c10_fnprof[] = {
+    {0, 0, 0, 0, 0, 0},
+    {0xFFFFFFFFu, 0xFFFF, 0xFFFFFFFFu, 0xFFFFFFFFu, 0xFFFF, 0xFFFF},
+    {1, 0x1234, 0x12345678u, 0x9ABCDEF0u, 0xBEEF, 0xCAFE},
+    {2, 3, 0x10000u, 0x00010203u, 0x0100, 0x0001},
+};
+typedef struct { uint32_t mod, fn; uint16_t pc; uint8_t ret; uint8_t pt[3]; } ImpProf;
+static const ImpProf c10_impprof[] = {
+    {0, 0, 0, TAG_VOID, {0, 0, 0}},
+    {1, 2, 1, TAG_INT, {TAG_STRING, 0, 0}},
+    {0xFFFFFFFFu, 0x01020304u, 3, TAG_OPAQUE, {TAG_FLOAT, TAG_BOOL, TAG_ARRAY}},
+};
+static const uint32_t c10_codelens[] = {0, 1, 4096, 4097};
+static const uint32_t c10_entries[] = {0, 5, 0xFFFFFFFFu};
+static unsigned long long c10_n = 0;
+
+static void c10_one(int ss, int nf, const int *fi, int ni, const int *ii, int nd, int ci, uint32_t flags, int ei) {
+    NvmModule *m = nvm_module_new();
+    for (int k = 0; k < 3 && c10_strsets[ss][k]; k++) nvm_add_string(m, c10_strsets[ss][k], (uint32_t)strlen(c10_strsets[ss][k]));
+    for (int k = 0; k < nf; k++) nvm_add_function(m, &c10_fnprof[fi[k]]);
+    for (int k = 0; k < ni; k++) { const ImpProf *q = &c10_impprof[ii[k]]; nvm_add_import(m, q->mod, q->fn, q->pc, q->ret, q->pc ? q->pt : NULL); }
+    for (int k = 0; k < nd; k++) nvm_add_debug_entry(m, k ? 0xFFFFFFFFu : 7u, k ? 0x01020304u : 0u);
+    uint32_t cl = c10_codelens[ci];
+    if (cl) { uint8_t *c = malloc(cl); for (uint32_t k = 0; k < cl; k++) c[k] = (uint8_t)(k * 31 + 7); nvm_append_code(m, c, cl); free(c); }
+    m->header.flags = flags; m->header.entry_point = c10_entries[ei];
+    c10_n++; n_eval++;
+    uint32_t s1 = 0; uint8_t *b1 = nvm_serialize(m, &s1);
+    char why[256] = "";
+    if (!b1) snprintf(why, sizeof why, "serialize returned NULL");
+    else {
+        uint8_t *ex = malloc(s1); memcpy(ex, b1, s1);          /* exact-size copy: asan sees overreads */
+        NvmModule *m2 = nvm_deserialize(ex, s1);
+        if (!m2) snprintf(why, sizeof why, "deserialize(serialize(m)) refused");
+        else {
+            if (!mod_diff(m, m2, true, why, sizeof why)) {
+                uint32_t s2 = 0; uint8_t *b2 = nvm_serialize(m2, &s2);
+                if (!b2 || s2 != s1 || memcmp(b1, b2, s1)) snprintf(why, sizeof why, "serialize not idempotent (%u vs %u bytes)", s1, s2);
+                free(b2);
+            }
+            nvm_module_free(m2);
+        }
+        free(ex);
+    }
+    if (why[0]) {
+        n_fail++;
+        if (n_fail <= 40) printf("FAIL c10b strings=%d fns=%d[%d,%d,%d] imps=%d[%d,%d] dbg=%d codelen=%u flags=%u entry=%u : %s\n",
+               ss, nf, fi[0], fi[1], fi[2], ni, ii[0], ii[1], nd, cl, flags, c10_entries[ei], why);
+    }
+    free(b1); nvm_module_free(m);
+}
+
+static int cmd_c10b(int argc, char **argv) {
+    (void)argc; (void)argv;
+    int NS = 6, NP = 4, NI = 3;
+    for (int ss = 0; ss < NS; ss++)
+    for (int nf = 0; nf <= 3; nf++) {
+        int fcomb = 1; for (int k = 0; k < nf; k++) fcomb *= NP;
+        if (nf == 3) fcomb = NP;            /* length 3: the four 'rotations' only */
+        for (int fc = 0; fc < fcomb; fc++) {
+            int fi[3] = {0, 0, 0};
+            if (nf == 3) { fi[0] = fc; fi[1] = (fc + 1) % NP; fi[2] = (fc + 2) % NP; }
+            else { int t = fc; for (int k = 0; k < nf; k++) { fi[k] = t % NP; t /= NP; } }
+            for (int ni = 0; ni <= 2; ni++) {
+                int icomb = 1; for (int k = 0; k < ni; k++) icomb *= NI;
+                for (int ic = 0; ic < icomb; ic++) {
+                    int ii[2] = {0, 0}; int t = ic; for (int k = 0; k < ni; k++) { ii[k] = t % NI; t /= NI; }
+                    for (int nd = 0; nd <= 2; nd++)
+                    for (int ci = 0; ci < 4; ci++)
+                    for (uint32_t fl = 0; fl < 8; fl++)
+                    for (int ei = 0; ei < 3; ei++)
+                        c10_one(ss, nf, fi, ni, ii, nd, ci, fl, ei);
+                }
+            }
+        }
+    }
+    printf("STAT modules=%llu evaluations=%lu fails=%lu\n", c10_n, n_eval, n_fail);
+    return 0;
+}
+
 static int more_main(int argc, char **argv) {
     const char *c = argv[1];
     if (!strcmp(c, "c12")) return cmd_c12(argc - 2, argv + 2);
+    if (!strcmp(c, "c10b")) return cmd_c10b(argc - 2, argv + 2);
     fprintf(stderr, "unknown command %s\n", c);
     return 3;
 }
